@@ -78,7 +78,18 @@ pub async fn dispatch_command<W: AsyncWrite + Unpin>(
             .handle()
             .await
         }
-        Replay { .. } => replay::handle(cmd, shard_manager, registry, writer, renderer).await,
+        Replay { .. } => {
+            replay::handle_as(
+                cmd,
+                shard_manager,
+                registry,
+                auth_manager,
+                user_id,
+                writer,
+                renderer,
+            )
+            .await
+        }
         ShowMaterialized { .. } => {
             show::handle(cmd, shard_manager, registry, writer, renderer).await
         }
